@@ -42,12 +42,16 @@ fn arbitrary_words(data: &[u8]) -> impl Iterator<Item = u64> + '_ {
 
 pub fn run(prop_id: &str, subcheck: &str, data: &[u8]) {
     INIT.call_once(install_panic_hook);
-    let props = crate::all_properties();
-    let prop = props.iter().find(|p| p.id == prop_id).expect("unknown property");
-    let sc = prop.subchecks.iter().find(|s| s.name == subcheck).expect("unknown sub-check");
-    let known = crate::known_signatures(prop_id);
+    // the sub-check and the known-findings list are looked up once per process
+    static CACHE: std::sync::OnceLock<(crate::engine::SubCheck, Vec<String>)> = std::sync::OnceLock::new();
+    let (sc, known) = CACHE.get_or_init(|| {
+        let props = crate::all_properties();
+        let prop = props.iter().find(|p| p.id == prop_id).expect("unknown property");
+        let sc = *prop.subchecks.iter().find(|s| s.name == subcheck).expect("unknown sub-check");
+        (sc, crate::known_signatures(prop_id))
+    });
     let cw = bytes_to_case(sc.kind, data);
-    let r = eval_case(sc, &cw, &known, false, false);
+    let r = eval_case(sc, &cw, known, false, false);
     if let Verdict::Violation(msg) = r.verdict {
         let dir = format!("{}/replays/{}", crate::verif_dir(), prop_id);
         let _ = std::fs::create_dir_all(&dir);
@@ -56,7 +60,7 @@ pub fn run(prop_id: &str, subcheck: &str, data: &[u8]) {
             h = (h ^ *b as u64).wrapping_mul(0x100000001b3);
         }
         let path = format!("{}/{}-fuzz-{:016x}.json", dir, subcheck, h);
-        let (decoded, _) = describe(sc, &cw, &known, true);
+        let (decoded, _) = describe(sc, &cw, known, true);
         let doc = serde_json::json!({
             "property": prop_id, "subcheck": subcheck, "words": words_json(&cw), "detail": msg, "decoded": decoded,
             "found_by": "libFuzzer", "replay": format!("./check {} --replay {}", prop_id, path),
